@@ -229,13 +229,16 @@ def run_poly(c):
             extra_q.append(np.append(h3(q)[:3] + nrm, 1.0))
             extra_t.append(False)
             extra_c.append("off-plane")
-        extra_q.append(np.append(u, 0.0))
-        extra_t.append(False)
-        extra_c.append("at-infinity")
+        # points at infinity (never in a finite polygon): directions inside the plane and along the coordinate axes, either sign
+        for dv in (u, -2.0 * w, u + w, np.array([1.0, 0.0, 0.0]), np.array([0.0, -3.0, 0.0]), np.array([0.0, 0.0, 1.0])):
+            extra_q.append(np.append(dv, 0.0))
+            extra_t.append(False)
+            extra_c.append("at-infinity")
     else:
-        extra_q.append(np.array([1.0, 2.0, 0.0]))
-        extra_t.append(False)
-        extra_c.append("at-infinity")
+        for dv in ([1.0, 2.0], [1.0, 0.0], [-3.0, 0.0], [0.0, 1.0], [0.0, -2.0], [1.0, 1.0]):
+            extra_q.append(np.array(dv + [0.0]))
+            extra_t.append(False)
+            extra_c.append("at-infinity")
     Qall = np.concatenate([Q, np.array(extra_q)]) if extra_q else Q
     tall = np.concatenate([truth, np.array(extra_t, dtype=bool)])
     call_cls = cls + extra_c
